@@ -2,10 +2,10 @@
 //! `VerifSleep`) on a current-thread runtime whose clock is paused, driven by random operation sequences — advance the clock,
 //! pause, resume, reset to a new duration, reset to the last duration — with `fired` (one poll) and `is_paused` recorded after
 //! every operation.  Line: `psleep <initial ms> <ops>\t<f|-><P|R>,…`; the Lean model (`Model/Unit.PSleep`) answers the same.
-use nextest_runner::verif_hooks::VerifSleep;
+use nextest_runner::verif_hooks::{VerifSleep, VerifStopwatch};
 use std::collections::BTreeMap;
 use std::io::Write;
-use std::time::Duration;
+use std::time::{Duration, Instant};
 use verif_harness::rng::Rng;
 
 fn main() {
@@ -52,6 +52,46 @@ fn main() {
         for o in ops.iter() { *dist.entry(format!("op:{}", &o[..1])).or_insert(0) += 1; }
         if res.iter().any(|r| r.starts_with('f')) { *dist.entry("fired".into()).or_insert(0) += 1; }
         writeln!(out, "psleep {} {}\t{}", init, ops.join(","), res.join(",")).unwrap();
+    }
+    // the real `StopwatchStart` (guarded hook `VerifStopwatch`) around real sleeps: every operation is bracketed by two readings of
+    // the harness's own clock, and the value of every snapshot goes into the request; the model says whether it lies between
+    // what the shortest and the longest times compatible with the readings give.  Line: `swatch <recs>\tin,in,…`
+    let nsw = (n / 6).clamp(20, 1500);
+    for _case in 0..nsw {
+        let origin = Instant::now();
+        let us = |t: Instant| t.duration_since(origin).as_micros();
+        let b = Instant::now();
+        let mut w = VerifStopwatch::new();
+        let a = Instant::now();
+        let mut recs = vec![format!("n{}:{}", us(b), us(a))];
+        let mut paused = false;
+        let mut snaps = 0;
+        // (corpus, first two cases: two pause / resume cycles with time passing in each state, then a snapshot — running, and paused)
+        let fixed: &[u64] = if _case == 0 { &[0, 4, 0, 4, 0, 4, 0, 4, 0, 9] } else if _case == 1 { &[0, 4, 0, 4, 0, 4, 0, 9, 0, 4, 0, 9] } else { &[] };
+        let nops = if fixed.is_empty() { rng.range(4, 16) } else { fixed.len() as u64 };
+        for i in 0..nops {
+            let r = if !fixed.is_empty() { fixed[i as usize] } else if i + 1 == nops { 9 } else { rng.below(10) };
+            match r {
+                0..=3 => std::thread::sleep(Duration::from_micros(*rng.pick(&[1000u64, 2000, 4000, 7000]))),
+                4..=6 => {
+                    let b = Instant::now();
+                    if paused { w.resume() } else { w.pause() }
+                    let a = Instant::now();
+                    recs.push(format!("{}{}:{}", if paused { "r" } else { "p" }, us(b), us(a)));
+                    paused = !paused;
+                    *dist.entry(format!("sw:{}", if paused { "pause" } else { "resume" })).or_insert(0) += 1;
+                }
+                _ => {
+                    let b = Instant::now();
+                    let act = w.active();
+                    let a = Instant::now();
+                    recs.push(format!("s{}:{}:{}", us(b), us(a), act.as_micros()));
+                    snaps += 1;
+                    *dist.entry(format!("sw:snapshot-{}", if paused { "paused" } else { "running" })).or_insert(0) += 1;
+                }
+            }
+        }
+        writeln!(out, "swatch {}\t{}", recs.join(","), vec!["in"; snaps].join(",")).unwrap();
     }
     out.flush().unwrap();
     let d: Vec<String> = dist.iter().map(|(k, v)| format!("{}={}", k, v)).collect();
